@@ -25,7 +25,7 @@ CONFIG = dict(
     min_nontrivial={"quick": 1500, "thorough": 30000},
     nshards={"quick": 8, "thorough": 16},
     timeout={"quick": 600, "thorough": 3600},
-    required_counters=("bytes_checks", "seekable_checks", "nonseekable_checks", "stack_checks"),
+    required_counters=("dump_file_checks", "bytes_checks", "seekable_checks", "nonseekable_checks", "stack_checks"),
 )
 
 VARLEN = {"STRING", "BINSTRING", "SHORT_BINSTRING", "BINBYTES", "SHORT_BINBYTES", "BINBYTES8", "BYTEARRAY8",
@@ -92,6 +92,11 @@ def boundary_programs():
         out.append((A.BINUNICODE("x" * n),))
         out.append((A.BINBYTES(b"y" * n),))
         out.append((A.BINSTRING("z" * n),))
+    # large opcodes in the middle of small ones (buffer sizes 8 KiB and 64 KiB are where writers / readers switch strategy)
+    for n in (8191, 8192, 8193, 65535, 65536, 65537, 140000):
+        out.append((A.PROTO(4), A.MARK, A.BININT1(1), A.SBU("k"), A.BINBYTES(b"y" * n), A.BININT1(2), A.TUPLE))
+        out.append((A.PROTO(2), A.EMPTY_LIST, A.BINPUT(0), A.BINUNICODE("x" * n), A.APPEND, A.NONE, A.APPEND))
+        out.append((A.NONE, A.POP, A.BINSTRING("z" * n), A.BINBYTES(b"w" * n), A.TUPLE2))
     out += [(A.BINUNICODE8("u" * 300),), (A.BINBYTES8(b"b" * 300),), (A.BYTEARRAY8(b"a" * 300),),
             (A.BINUNICODE("é" * 128),), (A.SBU("中" * 85),), (A.BINUNICODE("\U0001f600" * 64),)]
     for v in (0, 1, -1, 127, 128, -128, 255, 2**15, 2**63, -2**63, 2**(8 * 254), -(2**(8 * 254)), 2**(8 * 300)):
@@ -202,6 +207,26 @@ def run_kind(ctx, f, label, kind, tname, P, T, names):
             agg.violation(f"dumps-differs:{kind}",
                           "re-serialising the untouched parse does not reproduce the first pickle's bytes",
                           witness(label, kind, tname, P, T, dumps_hex=out[:200].hex(), dumps_len=len(out)))
+        # the streaming twin of dumps(): same bytes, into an in-memory and into a real file object
+        try:
+            buf = io.BytesIO()
+            p.dump(buf)
+            dumped = buf.getvalue()
+            tmp2 = os.path.join(ctx.scratch, f"c06_dump_{os.getpid()}.bin")
+            with open(tmp2, "wb") as fh:
+                p.dump(fh)
+            with open(tmp2, "rb") as fh:
+                dumped_file = fh.read()
+            os.remove(tmp2)
+            agg.count("dump_file_checks")
+            if dumped != P or dumped_file != P:
+                agg.violation(f"dump-file-differs:{kind}",
+                              "Pickled.dump(file) of the untouched parse does not write the first pickle's bytes (dumps() "
+                              + ("does" if out == P else "does not either") + ")",
+                              witness(label, kind, tname, P, T, dumped_hex=dumped[:120].hex(), dumped_len=len(dumped)))
+        except Exception as e:
+            agg.violation(f"dump-file-raises:{type(e).__name__}", f"Pickled.dump(file) raised: {str(e)[:100]}",
+                          witness(label, kind, tname, P, T))
         if sum(len(op.data) for op in p) != len(P):
             agg.violation("opcode-data-partition", "opcode byte slices do not partition the pickle",
                           witness(label, kind, tname, P, T))
